@@ -1,0 +1,57 @@
+//go:build verif
+
+package ctlog
+
+import (
+	"context"
+
+	"filippo.io/sunlight"
+)
+
+// This file is only compiled with the "verif" build tag. It mirrors
+// export_test.go for an out-of-package verification harness, and adds nothing
+// to regular builds.
+
+var VerifErrEvicted = errEvicted
+var VerifErrPoolFull = errPoolFull
+var VerifErrFatal = errFatal
+
+type VerifWaitEntryFunc = waitEntryFunc
+
+// VerifSetTimeNowUnixMilli replaces the package clock.
+func VerifSetTimeNowUnixMilli(f func() int64) { timeNowUnixMilli = f }
+
+// VerifSetPauseSequencing installs a callback invoked by sequencePool after
+// the new tiles were computed and before anything is staged or signed.
+func VerifSetPauseSequencing(f func()) { testingOnlyPauseSequencing = f }
+
+// VerifSequence runs one sequencing round, like RunSequencer does on each tick.
+func (l *Log) VerifSequence(ctx context.Context) error { return l.sequence(ctx) }
+
+// VerifAddLeafToPool is addLeafToPool.
+func (l *Log) VerifAddLeafToPool(ctx context.Context, e *PendingLogEntry, lowPriority bool) (VerifWaitEntryFunc, string) {
+	return l.addLeafToPool(ctx, e, lowPriority)
+}
+
+// VerifSignTreeHead signs a tree head with the keys in config.
+func VerifSignTreeHead(c *Config, n int64, hash [32]byte, timestamp int64) ([]byte, error) {
+	t := treeWithTimestamp{Time: timestamp}
+	t.N = n
+	t.Hash = hash
+	return signTreeHead(c, t)
+}
+
+// VerifComputeCacheHash is computeCacheHash.
+func VerifComputeCacheHash(certificate []byte, isPrecert bool, issuerKeyHash [32]byte) [32]byte {
+	return computeCacheHash(certificate, isPrecert, issuerKeyHash)
+}
+
+// VerifAsLogEntry is PendingLogEntry.asLogEntry.
+func (e *PendingLogEntry) VerifAsLogEntry(idx, timestamp int64) *sunlight.LogEntry {
+	return e.asLogEntry(idx, timestamp)
+}
+
+// VerifDigitallySign is digitallySign with the log key.
+func VerifDigitallySign(c *Config, msg []byte) ([]byte, error) {
+	return digitallySign(c.Key, msg)
+}
